@@ -1,6 +1,7 @@
 SPECIFICATION Spec
 CONSTANTS
   ReserveK = {}
+  GapK = {}
   AppendK = {}
   MemberCounts = {}
   FieldCounts = {}
